@@ -865,6 +865,7 @@ func outcomeClass(obs string) string {
 func mustJSON(v interface{}) string { b, _ := json.Marshal(v); return string(b) }
 
 func run(c *fw.Ctx) {
+	c.ConcPart() // schedule companion (checks/c01/conc): overlapping executions on their own account databases
 	if c.Thorough() && c.Shard%2 == 1 {
 		chainHeight = 2 // half of the workers explore the pre-P020/P023 table (inputs are sharded over the other half again)
 	}
